@@ -203,7 +203,34 @@ def r20_4(ctx):
     ctx.ob('R20.4', 'serve_client:referent-exception-sent-as-#ERROR', ok, sc, errs[0] if errs else None, "msg = ('#ERROR', exc)")
 
 
+def r20_6(ctx):
+    ctx.rule('R20.6', 'shutting a manager down always forgets this process\'s cached connections to its address and '
+                      'records the SHUTDOWN state (a later manager on the same address must not inherit them)', floor=2)
+    m = ctx.model
+    fi = m.func('managers:BaseManager._finalize_manager')
+    cfg = fi.cfg
+    P = fi.positional_params()
+    dels = [n for n in cfg.where(lambda n: n.kind == 'stmt' and isinstance(n.ast, ast.Delete) and any(
+        isinstance(t, ast.Subscript) and ast.unparse(t.value) == 'BaseProxy._address_to_local' and
+        ast.unparse(t.slice) in P for t in n.ast.targets))]
+    pops = [n for (n, c) in q.calls(fi, 'BaseProxy._address_to_local.pop') if c.args and ast.unparse(c.args[0]) in P]
+    forget = dels + pops
+    q.need(forget, '_finalize_manager never drops BaseProxy._address_to_local[address]')
+    ok = cfg.must_pass([cfg.entry], [cfg.exit], forget, skip_labels=('x',))[0]
+    w = None if ok else cfg.path([cfg.entry.id], [cfg.exit.id], block_nodes={n.id for n in forget}, skip_labels=('x',))
+    ctx.ob('R20.6', '_finalize_manager:connection-cache-dropped-on-every-path', ok, fi, forget[0],
+           'del BaseProxy._address_to_local[address] on every normal path' if ok else
+           'a path returns without dropping the cached connections: proxies of the next manager at this address '
+           'talk to the dead server\'s socket', path=w)
+    sets = [dn for (dn, t, v) in q.assigns(fi, lambda t: t.endswith('.value')) if v is not None and
+            ast.unparse(v) == 'State.SHUTDOWN']
+    ok = bool(sets) and cfg.must_pass([cfg.entry], [cfg.exit], sets, skip_labels=('x',))[0]
+    ctx.ob('R20.6', '_finalize_manager:state-recorded-on-every-path', ok, fi, sets[0] if sets else None,
+           'state.value = State.SHUTDOWN on every normal path')
+
+
 def run(ctx):
+    r20_6(ctx)
     r20_1(ctx)
     r20_2(ctx)
     r20_3(ctx)
@@ -217,6 +244,10 @@ def run(ctx):
 
 _M = 'billiard/managers.py'
 MUTANTS = [
+    ('dead-server-keeps-cached-connections', _M, "        if process.is_alive():\n            util.info('sending shutdown message to manager')\n",
+     "        if not process.is_alive():\n            state.value = State.SHUTDOWN\n            return\n        if True:\n            util.info('sending shutdown message to manager')\n", 'R20.6'),
+    ('shutdown-state-only-when-alive', _M, "        state.value = State.SHUTDOWN\n        try:\n            del BaseProxy._address_to_local[address]\n",
+     "        if process.exitcode is None:\n            state.value = State.SHUTDOWN\n        try:\n            del BaseProxy._address_to_local[address]\n", 'R20.6'),
     ('exposed-check-dropped', _M, "                if methodname not in exposed:\n                    raise AttributeError(\n                        'method %r of %r object is not in exposed=%r' % (\n                            methodname, type(obj), exposed)\n                    )\n", "", 'R20.1'),
     ('public-check-dropped', _M, "            assert funcname in self.public, '%r unrecognized' % funcname\n", "", 'R20.1'),
     ('fallback-exposes-setattr', _M, "        '#GETVALUE': fallback_getvalue", "        '__setattr__': fallback_str,\n        '#GETVALUE': fallback_getvalue", 'R20.1'),
@@ -237,6 +268,10 @@ MUTANTS = [
      "def deliver_challenge(connection, authkey, message=os.urandom(20)):\n    import hmac\n    assert isinstance(authkey, bytes)\n", 'R18.2'),
 ]
 TWINS = [
+    ('cache-dropped-with-pop', _M, "        try:\n            del BaseProxy._address_to_local[address]\n        except KeyError:\n            pass\n",
+     "        BaseProxy._address_to_local.pop(address, None)\n"),
+    ('dead-server-early-exit-with-cleanup', _M, "        if process.is_alive():\n            util.info('sending shutdown message to manager')\n",
+     "        if not process.is_alive():\n            state.value = State.SHUTDOWN\n            BaseProxy._address_to_local.pop(address, None)\n            return\n        if True:\n            util.info('sending shutdown message to manager')\n"),
     ('exposed-check-positive', _M, "                if methodname not in exposed:\n                    raise AttributeError(\n                        'method %r of %r object is not in exposed=%r' % (\n                            methodname, type(obj), exposed)\n                    )\n\n                function = getattr(obj, methodname)",
      "                if not (methodname in exposed):\n                    raise AttributeError(\n                        'method %r of %r object is not in exposed=%r' % (\n                            methodname, type(obj), exposed)\n                    )\n\n                function = getattr(obj, methodname)"),
 ]
